@@ -20,7 +20,9 @@ RULE = ('cases = one streaming run over a generated CSV file: exhaustive (rows<=
         'B in {1,7,64,1024,1025,1500,4096}, subsampling in {1,2,3,7,10}, malformed rows (short, long, empty, unclosed quote, quote swallowing a delimiter; quoted commas '
         'as valid rows) at the first/last position of a batch, just before EOF and in runs; plain and .gz input; 3-6 columns; library '
         'level (estimate_importances_minibatches), task level (outrank_task_conduct_ranking) and command-line level (outrank.__main__.main) -> pairwise_ranks.tsv. distinct = (rows, '
-        'B, subsampling, #invalid, invalid positions, level); non-trivial = at least 2 batches, or a tail decision within +-1 of 1024.')
+        'B, subsampling, #invalid, invalid positions, level); non-trivial = at least 2 batches, or a tail decision within +-1 of 1024. '
+        'Aggregation shards: get_grouped_df and the checkpoint writer on synthetic score histories (pairs missing from batches, undefined = NaN '
+        'scores in some or all batches of a pair, ties, infinities, magnitudes 1e-12..1e15, duplicate rows), checked after every batch.')
 REQUIRED = {'batches=model': 50, 'median-aggregation': 50, 'checkpoint-after-each-batch': 50, 'invalid-count': 20, 'tsv-sorted-ascending': 2, 'tail-rule': 4}
 EXHAUSTIVE_NOTE = {'quick': 'rows<=12 x batch<=5 x subsampling<=3 x every single corrupted row position x 3 corruption kinds',
                    'thorough': 'rows<=16 x batch<=6 x subsampling<=3 x every single corrupted row position x 3 corruption kinds, plus every pair of corrupted positions for rows<=9'}
